@@ -2049,7 +2049,25 @@ func (p *bprover) prove(facts []bfact, goal blin, at *ssa.BasicBlock, splits int
 		return joins[i].Index > joins[j].Index
 	})
 	if len(joins) > 3 {
-		joins = joins[:3]
+		// never drop the merge point of a value the goal itself mentions
+		var keep, rest []*ssa.BasicBlock
+		inGoal := map[*ssa.BasicBlock]bool{}
+		for a := range goal.t {
+			if pb, edges, ok := phiLike(a.v); ok && !isLoopMerge(pb, edges, a.v) {
+				inGoal[pb] = true
+			}
+		}
+		for _, j := range joins {
+			if inGoal[j] {
+				keep = append(keep, j)
+			} else {
+				rest = append(rest, j)
+			}
+		}
+		joins = append(keep, rest...)
+		if len(joins) > 3 {
+			joins = joins[:3]
+		}
 	}
 	// induction over a loop head: a goal that mentions only loop-carried
 	// values of one loop head (SSA phis, memory merges) and loop-invariant
